@@ -6629,14 +6629,28 @@ def fl3(m, run, rule='FL3.flips-on-labelled-nets'):
 def nm2(m, run, rule='NM2.normalisation-is-the-affine-map-onto-the-unit-interval'):
     """NM2: knotvector.normalize interpreted with exact arithmetic (text mode: the rounding through a formatted string is carried out) on
     knot vectors whose normalised knots are exactly representable - ranges [0, 1], [2, 3], [-1, 0] (unit length, shifted), [1, 5],
-    [-2, 2], [0, 4], [0.5, 2.5], with repeated interior knots: knot k becomes (k - first) / (last - first), in a new list, the input
-    left as it was"""
+    [-2, 2], [0, 4], [0.5, 2.5], [0, 64] and [0, 1] with knots at 1/32 and 1/1024 (ten decimals), with repeated interior knots: knot k
+    becomes (k - first) / (last - first), in a new list, the input left as it was.  The same through every public name that stands for it:
+    module-level aliases (utilities.normalize_knot_vector) and functions that return its result for their own first argument"""
     from fractions import Fraction as F
+    import ast
     fi = m.func('knotvector.normalize')
+    entries = [('knotvector', 'normalize')]
+    for (mod_, name_), val in sorted(m.modassign.items()):
+        if any(isinstance(x, (ast.Name, ast.Attribute)) and m.resolve_callable(mod_, x) is fi for x in ast.walk(val)) and (mod_, name_) not in entries:
+            entries.append((mod_, name_))
+    for g in m.funcs.values():
+        if g.kind == 'function' and g is not fi and g.node.args.args and (g.mod, g.name) not in entries:
+            for r in ast.walk(g.node):
+                if isinstance(r, ast.Return) and isinstance(r.value, ast.Call) and m.resolve_callable(g.mod, r.value.func) is fi and r.value.args \
+                        and isinstance(r.value.args[0], ast.Name) and r.value.args[0].id == g.node.args.args[0].arg:
+                    entries.append((g.mod, g.name))
+                    break
     vecs = [[0, 0, 0, F(1, 4), F(1, 2), F(1, 2), 1, 1, 1], [2, 2, F(5, 2), 3, 3], [-1, -1, -1, F(-3, 4), F(-1, 4), 0, 0, 0], [1, 1, 2, 3, 3, 5, 5],
-            [-2, -2, -2, 0, 1, 2, 2, 2], [0, 0, 1, 2, 3, 4, 4], [F(1, 2), F(1, 2), 1, F(3, 2), F(5, 2), F(5, 2)], [3, 3, 3, 4, 4, 4]]
+            [-2, -2, -2, 0, 1, 2, 2, 2], [0, 0, 1, 2, 3, 4, 4], [F(1, 2), F(1, 2), 1, F(3, 2), F(5, 2), F(5, 2)], [3, 3, 3, 4, 4, 4],
+            [0, 0, 2, 32, 64, 64], [0, 0, F(1, 1024), F(1, 32), F(1, 2), 1, 1]]
     bad = []
-    for kv in vecs:
+    for ent, kv in [(e_, v_) for e_ in entries for v_ in vecs]:
         inp = [float(x) for x in kv]
         keep = list(inp)
         sk = SK(m, {})
@@ -6644,7 +6658,7 @@ def nm2(m, run, rule='NM2.normalisation-is-the-affine-map-onto-the-unit-interval
         sk.text = True
         why = None
         try:
-            out = sk.call(fi, [inp], {})
+            out = sk.apply(sk.lookup_global(ent[0], ent[1]), [inp], {}, None)
             want = [(F(x) - F(kv[0])) / (F(kv[-1]) - F(kv[0])) for x in kv]
             if not isinstance(out, list) or len(out) != len(kv):
                 why = 'returns %r' % (out,)
@@ -6660,10 +6674,10 @@ def nm2(m, run, rule='NM2.normalisation-is-the-affine-map-onto-the-unit-interval
         except Violation as v:
             why = '%s %s' % (v.msg, v.where())
         except Unsupported as ex:
-            raise AnalysisError('%s: interpreter met an unsupported construct: %s' % (fi.key, ex))
+            raise AnalysisError('%s.%s: interpreter met an unsupported construct: %s' % (ent[0], ent[1], ex))
         if why:
-            bad.append(('knots %s' % [str(x) for x in kv], why))
-    run.ob(rule, '%s :: %d knot vectors' % (fi.key, len(vecs)), not bad, 'k -> (k - first) / (last - first), new list' if not bad else '%s: %s   [%d of %d]' % (bad[0][0], bad[0][1], len(bad), len(vecs)),
+            bad.append(('%s.%s, knots %s' % (ent[0], ent[1], [str(x) for x in kv]), why))
+    run.ob(rule, '%s :: %d knot vectors' % (fi.key, len(vecs)), not bad, 'k -> (k - first) / (last - first), new list (through %s)' % ', '.join('%s.%s' % e_ for e_ in entries) if not bad else '%s: %s   [%d of %d]' % (bad[0][0], bad[0][1], len(bad), len(vecs) * len(entries)),
            'geomdl/knotvector.py:%d in %s' % (fi.node.lineno, fi.key))
 
 
@@ -7047,45 +7061,57 @@ def kg2(m, run, rule='KG2.generated-knot-vectors-are-valid'):
     """KG2: knotvector.generate interpreted with exact arithmetic (linspace interpreted too) for degrees 1 .. 4, degree + 1 .. degree + 7
     control points, clamped and unclamped: the vector has num_ctrlpts + degree + 1 knots, is non-decreasing, runs from 0 to 1, a clamped
     one starts and ends with exactly degree + 1 equal knots and is strictly increasing in between, an unclamped one is strictly
-    increasing throughout; knotvector.check (interpreted) accepts it"""
+    increasing throughout; knotvector.check (interpreted) accepts it.  The same holds through every module-level name of the package bound to
+    an expression over knotvector.generate (utilities.generate_knot_vector, ...), and two calls with equal arguments return two different
+    lists: a generated vector belongs to its caller, editing it does not change what the next call returns"""
+    import ast
     from fractions import Fraction as F
     fg, fc = m.func('knotvector.generate'), m.func('knotvector.check')
     bad, cnt = [], 0
-    for p in range(1, 5):
-        for n in range(p + 1, p + 8):
-            for clamped in (True, False):
-                cnt += 1
-                sk = SK(m, {})
-                sk.exact = True
-                sk.text = True            # (linspace rounds through a formatted string)
-                why = None
-                try:
-                    kv = sk.call(fg, [p, n], {'clamped': clamped})
-                    num = lambda x: x.val if isinstance(x, Tok) and x.kind == 'PH0' and x.val is not None else x          # (a literal fill is its number)
-                    kv = [num(x) for x in kv] if isinstance(kv, list) else kv
-                    vals = [F(x) for x in kv] if isinstance(kv, list) and not any(isinstance(x, Tok) for x in kv) else None
-                    if vals is None:
-                        why = 'returns %r' % (kv,)
-                    elif len(vals) != n + p + 1:
-                        why = 'returns %d knots, m = n + p + 1 needs %d' % (len(vals), n + p + 1)
-                    elif vals[0] != 0 or vals[-1] != 1:
-                        why = 'runs from %s to %s, not from 0 to 1' % (vals[0], vals[-1])
-                    elif any(a > b for a, b in zip(vals, vals[1:])):
-                        why = 'is not non-decreasing'
-                    elif clamped and (vals[:p + 1] != [0] * (p + 1) or vals[-(p + 1):] != [1] * (p + 1) or any(a >= b for a, b in zip(vals[p:-p], vals[p + 1:len(vals) - p]))):
-                        why = 'is not clamped: %s' % [str(x) for x in vals]
-                    elif not clamped and any(a >= b for a, b in zip(vals, vals[1:])):
-                        why = 'an unclamped vector has repeated knots: %s' % [str(x) for x in vals]
-                    elif sk.call(fc, [p, list(kv), n], {}) is not True:
-                        why = 'knotvector.check rejects it'
-                except Violation as v:
-                    why = '%s %s' % (v.msg, v.where())
-                except Unsupported as ex:
-                    raise AnalysisError('%s: interpreter met an unsupported construct: %s' % (fg.key, ex))
-                if why:
-                    bad.append(('degree %d, %d control points, clamped=%s' % (p, n, clamped), why))
-    run.ob(rule, '%s :: %d (degree, count, clamped) cases' % (fg.key, cnt), not bad, 'n + p + 1 knots on [0, 1], clamped ends of multiplicity p + 1, accepted by check' if not bad else
-           '%s: %s   [%d of %d]' % (bad[0][0], bad[0][1], len(bad), cnt), 'geomdl/knotvector.py:%d in %s' % (fg.node.lineno, fg.key))
+    # the public names: the function itself and every module-level NAME = <expression mentioning it>
+    entries = [('knotvector', 'generate')]
+    for (mod_, name_), val in sorted(m.modassign.items()):
+        for x in ast.walk(val):
+            if isinstance(x, (ast.Name, ast.Attribute)) and m.resolve_callable(mod_, x) is fg and (mod_, name_) not in entries:
+                entries.append((mod_, name_))
+    cases = [(ent, p, n, clamped) for ent in entries for p in (range(1, 5) if ent == entries[0] else (2, 3)) for n in range(p + 1, p + 8) for clamped in (True, False)]
+    for ent, p, n, clamped in cases:
+        cnt += 1
+        sk = SK(m, {})
+        sk.exact = True
+        sk.text = True            # (linspace rounds through a formatted string)
+        why = None
+        try:
+            gen = sk.lookup_global(ent[0], ent[1])
+            kv = kv_first = sk.apply(gen, [p, n], {'clamped': clamped}, None)
+            num = lambda x: x.val if isinstance(x, Tok) and x.kind == 'PH0' and x.val is not None else x          # (a literal fill is its number)
+            kv = [num(x) for x in kv] if isinstance(kv, list) else kv
+            vals = [F(x) for x in kv] if isinstance(kv, list) and not any(isinstance(x, Tok) for x in kv) else None
+            if vals is None:
+                why = 'returns %r' % (kv,)
+            elif len(vals) != n + p + 1:
+                why = 'returns %d knots, m = n + p + 1 needs %d' % (len(vals), n + p + 1)
+            elif vals[0] != 0 or vals[-1] != 1:
+                why = 'runs from %s to %s, not from 0 to 1' % (vals[0], vals[-1])
+            elif any(a > b for a, b in zip(vals, vals[1:])):
+                why = 'is not non-decreasing'
+            elif clamped and (vals[:p + 1] != [0] * (p + 1) or vals[-(p + 1):] != [1] * (p + 1) or any(a >= b for a, b in zip(vals[p:-p], vals[p + 1:len(vals) - p]))):
+                why = 'is not clamped: %s' % [str(x) for x in vals]
+            elif not clamped and any(a >= b for a, b in zip(vals, vals[1:])):
+                why = 'an unclamped vector has repeated knots: %s' % [str(x) for x in vals]
+            elif sk.call(fc, [p, list(kv), n], {}) is not True:
+                why = 'knotvector.check rejects it'
+            elif sk.apply(gen, [p, n], {'clamped': clamped}, None) is kv_first:
+                why = ('two calls with equal arguments return one and the same list: an edit of the first result (a knot inserted, a rescaling in place) '
+                       'is what the second caller gets')
+        except Violation as v:
+            why = '%s %s' % (v.msg, v.where())
+        except Unsupported as ex:
+            raise AnalysisError('%s.%s: interpreter met an unsupported construct: %s' % (ent[0], ent[1], ex))
+        if why:
+            bad.append(('%s.%s, degree %d, %d control points, clamped=%s' % (ent[0], ent[1], p, n, clamped), why))
+    run.ob(rule, '%s :: %d (name, degree, count, clamped) cases' % (fg.key, cnt), not bad, 'n + p + 1 knots on [0, 1], clamped ends of multiplicity p + 1, accepted by check, a new list per call (through %s)'
+           % ', '.join('%s.%s' % e for e in entries) if not bad else '%s: %s   [%d of %d]' % (bad[0][0], bad[0][1], len(bad), cnt), 'geomdl/knotvector.py:%d in %s' % (fg.node.lineno, fg.key))
 
 
 # ====================================================================================== C16: the vector / matrix helpers on symbolic operands
